@@ -410,6 +410,8 @@ def gen_face(rng, fam):
         return gen_long_equator_edge(rng)
     if fam == "pole_inside_near_corner":
         return gen_pole_inside_near_corner(rng)
+    if fam == "small_cap_near_edge":
+        return gen_small_cap_near_edge(rng)
     if fam == "edge_through_ref":
         return gen_edge_through_ref(rng)
     if fam == "ref_point_at_vertex":
@@ -543,6 +545,37 @@ def gen_edge_through_ref(rng, at_vertex=False):
     return gen_face(rng, "equator")
 
 
+def gen_small_cap_near_edge(rng):
+    """a small polar cap (edges 1e-4 .. 1e-2 rad, corners outside the pole snap zone) with the pole strictly inside,
+    1.2e-6 .. 1e-4 rad from one of its edges (far outside the 1e-8 window of the pole-on-edge test)"""
+    s = rng.choice([1, -1])
+    for _ in range(300):
+        n = rng.choice([3, 4, 4, 5, 6, 8])
+        rho = 10 ** rng.uniform(math.log10(4e-4), -2)
+        th = sorted(rng.uniform(0, TWO_PI) for _ in range(n))
+        gaps = [(th[(i + 1) % n] - th[i]) % TWO_PI for i in range(n)]
+        if min(gaps) < 0.3 or max(gaps) > math.pi - 0.3:
+            continue
+        pts = [(rho * math.cos(t), rho * math.sin(t)) for t in th]
+        k = rng.randrange(n)
+        (x0, y0), (x1, y1) = pts[k], pts[(k + 1) % n]
+        ex, ey = x1 - x0, y1 - y0
+        el = math.hypot(ex, ey)
+        nx, ny = ey / el, -ex / el                      # outward normal of a counter-clockwise polygon
+        h = x0 * nx + y0 * ny                           # distance of the origin from the edge (> 0)
+        dist = 10 ** rng.uniform(math.log10(1.2e-6), -4)
+        if dist >= h:
+            continue
+        sh = h - dist                                   # move the polygon inwards along the normal: the origin ends up dist from the edge
+        pts = [(x - sh * nx, y - sh * ny) for x, y in pts]
+        if min(math.hypot(x, y) for x, y in pts) < 2.2 * SNAP:
+            continue
+        cs = [reduce(lattice((x, y * s, s * math.sqrt(1 - x * x - y * y)), 1 << 46)) for x, y in pts]
+        if convex_ccw(cs) and pole_status(cs, (0, 0, s))[0] == "inside":
+            return {"family": "small_cap_near_edge", "corners": cs}
+    return gen_pole_inside_near_corner(rng)
+
+
 def gen_pole_inside_near_corner(rng):
     """a pole-enclosing face with one corner 2e-4 .. 4.4e-3 rad (0.011 .. 0.25 degrees) from the pole"""
     s = rng.choice([1, -1])
@@ -560,7 +593,7 @@ def gen_pole_inside_near_corner(rng):
 
 
 FAMS = ["generic", "generic", "small", "small", "seam", "equator", "pole_inside", "pole_near", "pole_corner", "latlon_quad", "big",
-        "long_equator_edge", "pole_inside_near_corner", "edge_through_ref"]
+        "long_equator_edge", "pole_inside_near_corner", "edge_through_ref", "small_cap_near_edge"]
 
 
 def classify(face):
@@ -752,6 +785,8 @@ def gen_cases(ck):
     faces.append({"family": "design_witness", "corners": [ll(0, -40), ll(0, -60), ll(60, -60), ll(60, -40.5)]})
     for i in range(6):          # directed: present at every seed (all starts, both traversal directions)
         faces.append(gen_long_equator_edge(rng))
+    for i in range(6):          # directed: small polar caps with the pole close to an edge
+        faces.append(gen_small_cap_near_edge(rng))
     for i in range(8):          # directed: the equator reference point in the interior of an edge / at a vertex
         faces.append(gen_edge_through_ref(rng, at_vertex=(i >= 6)))
     for i in range(n):
